@@ -1,7 +1,15 @@
 import MoreExec.Props.C02
+import MoreExec.Props.C02Code
 #print axioms MoreExec.MeFuture.C02_callback_exactly_once
 #print axioms MoreExec.MeFuture.C02_outcome_stable
 #print axioms MoreExec.MeFuture.C02_cancel_true_sticks
 #print axioms MoreExec.MeFuture.C02_cancel_false_when_finished
 #print axioms MoreExec.MeFuture.C02_waiters_released
 #print axioms MoreExec.MeFuture.C02_cancel_sections_under_lock
+#print axioms MoreExec.MeFuture.C02_code_add
+#print axioms MoreExec.MeFuture.C02_code_cancel
+#print axioms MoreExec.MeFuture.C02_code_set
+#print axioms MoreExec.MeFuture.C02_code_poll_set
+#print axioms MoreExec.MeFuture.C02_code_delegate_cancelled
+#print axioms MoreExec.MeFuture.C02_code_callback_pass
+#print axioms MoreExec.MeFuture.C02_code_no_overrides
